@@ -91,6 +91,32 @@ def gen_random(rng, n, maxlen, heavy_reserve=False, keys=None, sizes=None):
     return out
 
 
+def gen_ties(rng, n):
+    """Directories whose entry files SHARE modification times (a restored backup, a coarse-timestamp file system):
+    every file within capacity must still be indexed after open / reopen.  The order among equal mtimes is not
+    determined (directory order), so these cases are compared up to index order (5th element = 1) and stay
+    within capacity (no eviction whose victim would depend on that order)."""
+    out = []
+    for _ in range(n):
+        init = []
+        names = rng.shuffle(KEYS + [b'e', b'd/f'])[:rng.range(2, 5)]
+        mt = [rng.range(1, 3) for _ in names]
+        for k, m in zip(names, mt):
+            init.append([k, rng.choice([0, 1, 5, 10]), m])
+        ops = []
+        for _ in range(rng.range(0, 4)):
+            kind = rng.weighted([('get', 3), ('contains', 2), ('reopen', 2), ('insert_bytes', 1)])
+            k = rng.choice(names)
+            if kind == 'reopen':
+                ops.append([b'reopen', 100])
+            elif kind == 'insert_bytes':
+                ops.append([b'insert_bytes', b'zz', 5])
+            else:
+                ops.append([kind.encode(), k])
+        out.append([100, init, ops, rng.below(2), 1])
+    return out
+
+
 def gen_scenarios(depth):
     """A full two-entry cache, then EVERY sequence (to the given depth) of two-phase / lookup operations on it:
     overwrites of the least and most recently used key with under- and over-reservation."""
@@ -122,6 +148,7 @@ def gen_exhaustive(depth):
 def monitor(case, out):
     """The property's own predicates, evaluated on the REAL implementation's observations."""
     cap, init, ops = case[:3]
+    ties = len(case) > 4 and case[4] == 1
     vs = []
     if not isinstance(out, list) or len(out) != len(ops) + 1:
         return ['malformed implementation output']
@@ -172,7 +199,9 @@ def monitor(case, out):
             k = key_of(op)
             if t == b'commit' and res != b'bad_handle':
                 k = hkey.get(op[1])
-            if t == b'reopen':
+            if ties:
+                pass
+            elif t == b'reopen':
                 if not interfered:
                     byt = [f[0] for f in sorted(prev[6], key=lambda f: f[2]) if f[1] <= cap and not f[0].split(b'/')[-1].startswith(b'.sccachetmp')]
                     if keys != byt[len(byt) - len(keys):] or any(x not in byt for x in keys):
@@ -258,15 +287,30 @@ def translate(rep):
     rep.oblige('translate:TEMPFILE_PREFIX', True, repr(consts))
 
 
+def compare_case(m, i, case):
+    if m == i:
+        return True
+    if not (len(case) > 4 and case[4] == 1):
+        return False
+    try:
+        from .. import sx
+        a, b = sx.loads(m), sx.loads(i)
+    except Exception:
+        return False
+    def norm(o):
+        return [[x[0], [], x[2], x[3], x[4], sorted(x[5]), [f[:2] for f in x[6]], x[7], x[8]] if len(x) == 9 else x for x in o]
+    return norm(a) == norm(b)
+
+
 def legs(tier):
     def gen(rng, tier):
         two = dict(keys=[b'a', b'b'], sizes=[0, 5, 10, 12, 13, 15])
         if tier == 'thorough':
             return (gen_exhaustive(5) + gen_scenarios(4) + gen_random(rng, 40000, 30) + gen_random(rng, 20000, 30, True)
-                    + gen_random(rng, 20000, 12, True, **two))
+                    + gen_random(rng, 20000, 12, True, **two) + gen_ties(rng, 5000))
         return (gen_exhaustive(3) + gen_scenarios(3) + gen_random(rng, 2200, 30) + gen_random(rng, 800, 30, True)
-                + gen_random(rng, 1500, 12, True, **two))
-    return [Leg('lru', gen, monitor=monitor, nontrivial=nontrivial, shrink=shrink, neighbours=neighbours,
+                + gen_random(rng, 1500, 12, True, **two) + gen_ties(rng, 300))
+    return [Leg('lru', gen, compare_case=compare_case, monitor=monitor, nontrivial=nontrivial, shrink=shrink, neighbours=neighbours,
                 stats=stats,
                 rule='exhaustive op sequences over a 10-op alphabet (depth 3 quick / 5 thorough) + exhaustive two-phase/overwrite scenarios on a full two-entry cache (12-op alphabet, depth 3/4) + state-aware PRNG sequences of '
                      'length<=30 over 4 keys x 9 sizes x 4 capacities incl. a reservation-heavy stream and pre-populated '
